@@ -10,9 +10,14 @@ package dtls
 //                           step the result of the call and the projected real state are compared with what the
 //                           specification computed, and the observation is also judged by a property-level
 //                           oracle that does not depend on the spec (bytes returned vs bytes fed).
+//                           Slow-reader behaviours (Gen_SctpBacklog) fill the real recvCh to its capacity and one
+//                           beyond: the driver then observes that recvLoop holds the message (asks for no further
+//                           one) until a read makes room.
 //   TestVerifStreamRandom   stage C: seeded random item / buffer-size sequences at the production message size
 //                           (65536) and with the production heartbeat payload are recorded as ndjson traces
-//                           for Trace_SctpStream.
+//                           for Trace_SctpStream; the first VERIF_SLOW of them with a stalled reader.
+//   TestVerifStreamFreeRun  unscheduled slow reader (peer pushes freely, reader falls behind until the peer is
+//                           stuck, catches up in bursts); byte oracle only, optionally under -race.
 
 import (
 	"bytes"
